@@ -297,14 +297,14 @@ def native_equivalence(sc, raw, hl, bhe, rn):
 
 def dur_scenarios(tier):
     scs = []
-    months = [2] if tier == 'quick' else [1, 2, 7, 12]
+    months = [2] if tier == 'quick' else [1, 2, 7]
     for m in months:
         last = HC.DIM[m] - 1
         for sign in (1, -1):
             flat = 'heat' if sign > 0 else 'cool'
             f = 2000.0 if sign > 0 else 1500.0
             # (a) the monthly peak concrete (barely above a flat month / well above it), a load on the previous day symbolic
-            for pk in ((f + 50.0, 5000.0) if tier == 'quick' else (f + 50.0, f + 0.5, 5000.0, 150000.0)):
+            for pk in ((f + 50.0, 5000.0) if tier == 'quick' else (f + 50.0, f + 0.5, 5000.0)):
                 scs.append(DurScenario(m, sign, 0, flat, (-18,), {'q_peak': pk}))              # previous day = previous month
                 if tier == 'thorough' or pk == 5000.0:
                     scs.append(DurScenario(m, sign, 10 if tier == 'quick' else last, flat, (-20,), {'q_peak': pk}))   # previous day in the same month
